@@ -47,6 +47,12 @@ theorem sumRange_add (f g : ℕ → K) (n : ℕ) :
   | zero => simp [sumRange_zero]
   | succ n ih => rw [sumRange_succ, sumRange_succ, sumRange_succ, ih]; ring
 
+theorem sumRange_mul_left (c : K) (f : ℕ → K) (n : ℕ) :
+    sumRange (fun k => c * f k) n = c * sumRange f n := by
+  induction n with
+  | zero => simp [sumRange_zero]
+  | succ n ih => rw [sumRange_succ, sumRange_succ, ih]; ring
+
 theorem sumRange_ite (c : Prop) [Decidable c] (f : ℕ → K) (n : ℕ) :
     sumRange (fun k => if c then f k else 0) n = if c then sumRange f n else 0 := by
   by_cases hc : c
